@@ -12,7 +12,7 @@ TECH = ('solver-based checking of the real code: bounded symbolic execution of /
 CLAIMED = {
     'C08': ('Every obligation (ring laws of SeqNum, diff/ordering over half the ring, BitField.insert/contains '
             'against a ghost receive set for widths 8..256, ack/ack_bits naming through the real header codec and '
-            '_handle_ack_bits, the _recv_datagram gate accepting a genuine datagram up to the window edge exactly when it was not received before) is an SMT query over the whole value domain on every execution path of the real source; '
+            '_handle_ack_bits, the _recv_datagram gate accepting a genuine datagram up to the window edge exactly when it was not received before, the message gate delivering a message (APP / APP_FRAGMENT) at any offset -32767..32767 from an arbitrary 256-bit window exactly when it was not received before and never flagging a never-received message older than the window) is an SMT query over the whole value domain on every execution path of the real source; '
             'one inductive window step from an arbitrary state covers insertion histories of any length.',
             'Trusted: the sx engine (proxy semantics for int/bit operations, validated by running the repo tests '
             'concretely through it), z3, the struct model. Bounds: values are the full 16-bit domain, offsets '
@@ -45,7 +45,7 @@ CLAIMED = {
             'k masked client frames cut at symbolic positions are fed through the real WebSocketTemporaryHandler and '
             'proven to be delivered once each, in order, unmasked, without exceptions; frames with a 16-bit or 64-bit extended length cut inside their header neither raise nor deliver early.',
             'Trusted: sx engine, struct model. Bounds: header codec unbounded in the length value; masking payload <= 8 '
-            '(thorough 12) symbolic bytes; segmentation k <= 2 frames, payload <= 2 bytes, <= 1 cut (thorough k <= 3, <= 3 bytes, '
+            '(thorough 12) symbolic bytes; segmentation k <= 2 frames, payload <= 2 bytes, <= 2 cuts (thorough k <= 3, <= 3 bytes, '
             '<= 2 cuts) - payload content is irrelevant to framing, only boundaries matter. Continuation frames are not '
             'implemented by the library and not in the statement.',
             'DESIGN.md §6 C18'),
@@ -86,7 +86,7 @@ CLAIMED = {
     'C19': ('Data flow around uninterpreted primitives: the real hash_password/verify_password run on an opaque password of '
             'symbolic length with os.urandom returning arbitrary bytes, SHA-256/scrypt as uninterpreted functions and base64 as an '
             'invertible opaque encoding. Proven: the right password verifies and verify re-derives with exactly the salt and '
-            'parameters stored in the hash; another password verifies only if the KDF collides; each hash draws and embeds its own '
+            'parameters stored in the hash; every other password - a proper prefix, a proper extension, or one whose first differing byte sits at any offset and is followed by any tail, lengths unbounded - verifies only if SHA-256/scrypt collide (uninterpreted functions obey f(a)==f(b) <=> a==b under the collision-freedom switch, with rope equality deciding a==b); each hash draws and embeds its own '
             '16 fresh random bytes; for every hash string of 0..6 arbitrary fields the outcome is False, ValueError or TypeError, '
             'and True only when the four fields decoded and the KDF comparison itself matched.',
             'Trusted/assumed: everything cryptographic (SHA-256 and scrypt are uninterpreted; "every other password does not '
@@ -146,7 +146,7 @@ CLAIMED = {
             'counting is proven on the real send/_build_packet/_handle_ack/_handle_timeout for unretried sends (the callback lives in '
             'exactly one place and fires once), for guaranteed sends carried by several datagrams because the round trip exceeds the '
             'resend interval (every ack/timeout/pending combination: exactly once, True), and for fragmented sends (once, after all '
-            'fragments are resolved). That the peer accepted what it acknowledged rests on C01 (headers authenticated) and C08 (ack '
+            'fragments are resolved). That the peer accepted what it acknowledged: one receive step from an arbitrary 256-bit message window proves that a datagram the receiver accepts (hence acks) delivers its never-before-received message whatever the distance of its message seq from the newest one seen (L7.4); the rest is C01 (headers authenticated) and C08 (ack '
             'fields name exactly the received datagrams).',
             'Trusted: sx engine, exact-real clock. Bounds: <= 2 (thorough 3) pending datagrams in the step lemma, 2..3 (4) carrying '
             'datagrams, <= 2 (3) fragments. BEST_EFFORT callbacks are excluded by the statement.',
@@ -180,7 +180,7 @@ CLAIMED = {
             'elapsed), the exact ring successor, last_send_time := t, and that header bytes 0..11 are (direction magic, int(t), seq, '
             'ack) with the magic a function of the endpoint role only. An arithmetic lemma, posed with the send interval read from '
             'the instrumented object on every run, shows that packets at least wraps*65535 intervals apart have different whole '
-            'seconds, and that the ring has no shorter period. Every emission path (client _encode_packet, UdpServerThread.send, '
+            'seconds, and that the ring has no shorter period; the spacing invariant behind it (consecutive emissions at least one send interval apart) is a solver-checked inductive step (L3.2). Every emission path (client _encode_packet, UdpServerThread.send, '
             'TwistedServer.sendPacketsUnsafe) is proven to call AES-GCM exactly once with (session key, hdr[0:12], hdr[0:20], whole '
             'message area) for every packet type but the signed server hello, with output header ++ ciphertext and no payload blob '
             'outside the ciphertext; send() on a not-yet-connected connection queues nothing, so no application message can share a '
@@ -195,7 +195,7 @@ CLAIMED = {
             'liveness clock; the client reports DROPPED exactly after more than 5 s of silence; an unanswered connect attempt ends '
             'DISCONNECTED exactly after the configured timeout, with and without a callback, the callback fired once with False; '
             'client setters called before, after or around connect() never raise and the values are observed at the thresholds of the '
-            'real emission / timeout paths; an LRA lemma gives keep-alive + tick + jitter < timeout => no timeout between arrivals.',
+            'real emission / timeout paths; an LRA lemma gives keep-alive + tick + jitter < timeout => no timeout between arrivals; configured connection / temp-connection timeouts and keep-alive interval are observed at their thresholds inside the real server loop (L12.7).',
             'The statement\'s "indefinitely" is the induction over emissions (paper step). Trusted: sx engine, exact-real clock, socket/'
             'select stand-ins. The server-side sweep (silent client removed after connection_timeout, settings read by the loop) is '
             'decided in C10. Outside: float rounding, wall-clock jumps.',
@@ -208,7 +208,7 @@ CLAIMED = {
             'through the real code on both sides (real serializers, codec, key derivation calls): both ends hold the same 16-byte key '
             'term and the same token, the challenge response is sealed under that key, exactly one connect event. Promotion of a temp '
             'connection is proven equivalent to: CHALLENGE_RESP type, sealed under this connection\'s key, carrying the issued token; '
-            'other pending handshakes untouched; connect at most once. Two hellos delivered in one connect attempt (forged then forged or genuine, same or new datagram) are judged independently: a refused hello does not weaken the pin.',
+            'other pending handshakes untouched; connect at most once. Two hellos delivered in one connect attempt (forged then forged or genuine, same or new datagram) are judged independently: a refused hello does not weaken the pin. A keyless server-side connection fed one clear-text attacker datagram (any header type, 1-2 inner messages of any type: hello of any protocol version, challenge response with any token, junk) is never promoted, raises no connect event, and starts a key exchange only from the single client hello.',
             'Assumed, not shown: hardness of ECDSA/ECDH/HKDF/AES-GCM (ideal models, listed in the evidence); distinct keys have distinct '
             'encodings. The TOFU mode (no pinned key) is excluded by the statement. Reordering/duplication/loss of handshake datagrams '
             'at the server gate is part of C10.',
@@ -228,9 +228,9 @@ CLAIMED = {
             'stand-ins; inside the loop harness get_token hands out distinct values (the generator is L10.3). Bounds: 8 ticks, 2 '
             'addresses, action alphabet and positions as listed in the evidence.',
             'DESIGN.md §6 C10'),
-    'C11': ('The real TwistedServer.datagramReceived is executed on arbitrary bytes of every length up to the receive size (short '
-            'symbolic prefixes, 20 symbolic header bytes + opaque rest, fully opaque): it never raises, never replies, and for a '
-            'block-listed address neither queues nor wakes the loop. The unmodified server loop (driver of C10) runs with an '
+    'C11': ('The real TwistedServer.datagramReceived and the reference socket loop _UdpServer.run are executed on arbitrary bytes of every length up to the receive size (short '
+            'symbolic prefixes, 20 symbolic header bytes + opaque rest, fully opaque) from an arbitrary host string (z3 string) with an arbitrary block list (two symbolic entries + one fixed): they never raise, never reply, and for a '
+            'block-listed address neither queue nor wake the loop. The unmodified server loop (driver of C10) runs with an '
             'established honest client B while address A - unknown, mid-handshake or connected - injects a hostile datagram (forged '
             'header of any type with valid CRC and arbitrary body bytes, a hello carrying arbitrary message bytes, an oversized datagram '
             'of any non-hello type, a truncated copy of a genuine datagram): no exception leaves the loop, the handler lifecycle stays '
